@@ -204,6 +204,11 @@ func c11PipelineStream(ctx *core.Ctx) {
 			ctx.Add("c11.next", map[string]any{"p": p, "k": k})
 		}
 	}
+	// at the root `Next` does not escape: it splits (Props/C11Lift.lean assumes root.Next("services") = ["services"])
+	for _, k := range []string{"services", "networks", "volumes", "x-ext", "services.a", "a.b.c", ".", ""} {
+		ctx.Count("path-next:root")
+		ctx.Add("c11.next", map[string]any{"p": []string{""}, "k": k})
+	}
 	envs := []map[string]string{{}, {"FOO": "bar", "EMPTY": ""}, {"FOO": "a=b", "X": "1"}}
 	for i := 0; i < ctx.Pick(2500, 60000); i++ {
 		d, kind := c11PipelineDoc(ctx)
